@@ -319,6 +319,9 @@ _FUNCS = {
     # a state that compares element-wise: `state == marker` is an array, `bool(array)` raises for more than one element
     'acc_npvec': lambda: (lambda a, i: a + _np.array([i, 1], dtype='int64')),
     # an append on a list produced by a factory that is not a plain function (functools.partial / callable object / lru_cache)
+    # a stateful pass-through (emits every item as it is): placed BEHIND an operator under test, it only works if the events that
+    # operator emits are complete mux events - key, item and the store of the section
+    'acc_keep': lambda: (lambda a, i: i),
     'acc_append_any': lambda: (lambda a, i: a + [digest(i)]),
     # (first value seen, count): 'nothing seen yet' is recognised by the IDENTITY of the sentinel the factory put in the state
     'acc_sentinel': lambda: (lambda a, i: (digest(i), 1) if a[0] is _MISSING else (a[0], a[1] + 1)),
@@ -383,7 +386,7 @@ _FUNCS = {
 }
 
 _SEEDS = {
-    'zero': lambda: 0, 'zerof': lambda: 0.0, 'list': lambda: [], 'list_factory': lambda: list,
+    'none': lambda: None, 'zero': lambda: 0, 'zerof': lambda: 0.0, 'list': lambda: [], 'list_factory': lambda: list,
     'dict_factory': lambda: dict, 'pair00': lambda: (0, 0), 'neg1': lambda: -1,
     'arr_factory': lambda: (lambda: array('q')), 'one': lambda: 1,
     'box': lambda: Box(), 'tbox': lambda: (Box(), 0),      # hashable but mutable user objects
@@ -652,7 +655,7 @@ FUNC_SIG = {
     't0': ('t', 'i'), 't1': ('t', 'i'), 'tsum': ('t', 'i'), 'len': ('l', 'i'), 'lsum': ('l', 'i'),
     'isnone': ('o', 'i'), 'digest': ('*', 'i'), 'raise_on': ('*', None),
 }
-SEED_TYPE = {'zero': 'i', 'zerof': 'f', 'list': 'x', 'list_factory': 'x', 'dict_factory': 'x', 'pair00': 't',
+SEED_TYPE = {'none': 'x', 'zero': 'i', 'zerof': 'f', 'list': 'x', 'list_factory': 'x', 'dict_factory': 'x', 'pair00': 't',
              'neg1': 'i', 'arr_factory': 'x', 'one': 'i', 'nested': 'x', 'box': 'x', 'tbox': 'x', 'npvec': 'x',
              'list_partial': 'x', 'list_callable_object': 'x', 'list_lru': 'x', 'sentinel_factory': 'x', 'ndict': 'x', 'nlist': 'x', 'phase': 'x', 'ddict': 'x'}
 
